@@ -35,10 +35,59 @@ type Cfg struct {
 var keyWords = []string{"a", "b", "id", "name", "port", "host", "size", "max", "ttl", "mode", "tags", "rate", "x", "cfg", "item"}
 var confWords = []string{"userName", "maxConn", "port", "Host", "timeoutMs", "a", "dbUrl", "Mode", "retryCount", "x", "keepAlive", "Tags"}
 
+const lowerLetters = "abcdefghijklmnopqrstuvwxyz"
+const upperLetters = "ABCDEFGHIJKLMNOPQRSTUVWXYZ"
+
+// RandIdent draws an identifier-like key: words whose initials are uniform over the whole
+// alphabet (so that a/z/A/Z, the edges of the letter classes, are as likely as any other letter),
+// an initial of either case, optionally digits between words; later words start with a capital
+// and have a non-empty lower-case tail (no acronyms: their snake_case spelling is ambiguous).
+func RandIdent(r *rand.Rand) string {
+	tail := func(min int) string {
+		n := min + r.Intn(4)
+		b := make([]byte, n)
+		for i := range b {
+			b[i] = lowerLetters[r.Intn(26)]
+			if r.Intn(4) == 0 {
+				b[i] = "az"[r.Intn(2)]
+			}
+		}
+		return string(b)
+	}
+	var b strings.Builder
+	if r.Intn(2) == 0 {
+		b.WriteByte(lowerLetters[r.Intn(26)])
+	} else {
+		b.WriteByte(upperLetters[r.Intn(26)])
+	}
+	b.WriteString(tail(0))
+	for i, n := 0, r.Intn(3); i < n; i++ {
+		if r.Intn(5) == 0 {
+			b.WriteString(strconv.Itoa(r.Intn(100)))
+		}
+		b.WriteByte(upperLetters[r.Intn(26)])
+		b.WriteString(tail(1))
+	}
+	return b.String()
+}
+
 func (c *Cfg) newKey(r *rand.Rand) string {
 	c.nkey++
 	if c.Conf {
-		return confWords[r.Intn(len(confWords))] + strconv.Itoa(c.nkey)
+		if r.Intn(4) == 0 {
+			return confWords[r.Intn(len(confWords))] + strconv.Itoa(c.nkey)
+		}
+		return RandIdent(r) + strconv.Itoa(c.nkey)
+	}
+	if r.Intn(3) == 0 {
+		id := RandIdent(r)
+		switch r.Intn(4) {
+		case 0:
+			return id + "_" + strconv.Itoa(c.nkey)
+		case 1:
+			return id + "-" + strconv.Itoa(c.nkey)
+		}
+		return id + strconv.Itoa(c.nkey)
 	}
 	w := keyWords[r.Intn(len(keyWords))]
 	switch r.Intn(8) {
